@@ -690,7 +690,9 @@ class Manager:
         if event.alert_done:
             self.fire(event.child('done', event.value.value), *event.channels)
 
-        if err is None and event.success:
+        # A handler may have failed long before a suspended (generator)
+        # handler of the same event finishes and gets us here without err.
+        if err is None and event.success and not event.value.errors:
             channels = getattr(event, 'success_channels', event.channels)
             self.fire(event.child('success', event, event.value.value), *channels)
 
